@@ -23,6 +23,7 @@ pub trait Field: Sized + Copy {
     proof fn sub_add(a: Self, b: Self) ensures a.fsub(b).fadd(b) == a, b.fadd(a.fsub(b)) == a;       // (a-b)+b = a
     proof fn mul_inv_cancel(a: Self, b: Self) requires a != Self::fzero() ensures a.fmul(b.fmul(a.finv())) == b; // a*(b*a^-1) = b
     fn zero() -> (r: Self) ensures r == Self::fzero();
+    fn one() -> (r: Self) ensures r == Self::fone();
     fn add(self, o: Self) -> (r: Self) ensures r == self.fadd(o);
     fn mul(self, o: Self) -> (r: Self) ensures r == self.fmul(o);
     fn sub(self, o: Self) -> (r: Self) ensures r == self.fsub(o);
@@ -72,6 +73,7 @@ pub enum CircuitError {
     WitnessNotSet { witness_id: WitnessId },
     WitnessIdOutOfBounds { witness_id: WitnessId },
     WitnessConflict { witness_id: WitnessId },
+    InvalidBitValue { input_witness_id: WitnessId },
     DivisionByZero,
     Other,
 }
@@ -128,7 +130,8 @@ pub open spec fn alu_holds<F: Field>(w: Seq<Option<F>>, kind: AluOpKind, a: Witn
     &&& match kind {
         AluOpKind::Add => slot(w, b).is_some() && slot(w, a).unwrap().fadd(slot(w, b).unwrap()) == slot(w, out).unwrap(),
         AluOpKind::Mul => slot(w, b).is_some() && slot(w, a).unwrap().fmul(slot(w, b).unwrap()) == slot(w, out).unwrap(),
-        AluOpKind::BoolCheck => slot(w, out) == slot(w, a),     // the runner copies; booleanity is the table's constraint (C11)
+        // the value is boolean (the table's constraint a*(a-1) = 0, C11) and copied to `out`; a non-boolean value conflicts with the circuit (C19)
+        AluOpKind::BoolCheck => slot(w, out) == slot(w, a) && slot(w, a).unwrap().fmul(slot(w, a).unwrap().fsub(F::fone())) == F::fzero(),
         AluOpKind::MulAdd => slot(w, b).is_some() && oslot(w, c).is_some()
             && slot(w, a).unwrap().fmul(slot(w, b).unwrap()).fadd(oslot(w, c).unwrap()) == slot(w, out).unwrap()
             && (io.is_some() ==> slot(w, io.unwrap()) == Some(slot(w, a).unwrap().fmul(slot(w, b).unwrap()))),
@@ -309,6 +312,9 @@ def build():
     # ---------------------------------------------------------------- execute_alu_op
     ea = u.extract(R, IMPL, 'execute_alu_op', 'CircuitRunner::execute_alu_op')
     ea.rewrite_re('R11', r'\bF::ZERO\b', 'F::zero()')
+    ea.rewrite_re('R11', r'\bF::ONE\b', 'F::one()', min_count=0)
+    ea.rewrite_re('R11-op', r'if (\w+) \* \(\1 - F::one\(\)\) != F::zero\(\) \{', r'if !\1.mul(\1.sub(F::one())).eq(&F::zero()) {', min_count=0)
+    ea.rewrite_re('R8', r'CircuitError::InvalidBitValue \{\s*input_witness_id: (\w+),\s*bit_value: format!\("[^"]*"\),?\s*\}', r'CircuitError::InvalidBitValue { input_witness_id: \1 }', min_count=0)
     ea.rewrite('R11-op', 'let result = a_val + b_val;', 'let result = a_val.add(b_val);')
     ea.rewrite('R11-op', 'let b_val = out_val - a_val;', 'let b_val = out_val.sub(a_val);')
     ea.rewrite('R11-op', 'let result = a_val * b_val;', 'let result = a_val.mul(b_val);')
@@ -337,6 +343,11 @@ def build():
 
     # ---------------------------------------------------------------- execute_all
     ex = u.extract(R, IMPL, 'execute_all', 'CircuitRunner::execute_all')
+    ex.rewrite_re('R5', r'for &(\w+) in &self\.circuit\.private_input_rows \{', r'for pi_ in 0..self.circuit.private_input_rows.len() { let \1 = self.circuit.private_input_rows[pi_];', min_count=0)
+    ex.ensures('a_withheld_private_input_is_an_error', '(exists|i: int| 0 <= i < old(self).circuit.private_input_rows@.len() && slot(old(self).witness@, #[trigger] old(self).circuit.private_input_rows@[i]).is_none()) ==> ret is Err')
+    if 'for pi_ in 0..self.circuit.private_input_rows.len()' in ex.body:
+        ex.loop('for pi_ in 0..self.circuit.private_input_rows.len()', invariants=[
+            ('supplied_so_far', '*self == *old(self) && forall|i: int| 0 <= i < pi_ ==> slot(self.witness@, #[trigger] self.circuit.private_input_rows@[i]).is_some()')])
     ex.rewrite('R5', 'for op in &self.circuit.ops {', 'for oi_ in 0..self.circuit.ops.len() { let op = &self.circuit.ops[oi_];')
     ex.rewrite('R6', 'executor.execute(inputs, outputs, &mut self.witness)?;', 'executor.execute(inputs, outputs, &mut self.witness)?;')
     ex.requires('ops_well_formed', 'forall|k: int| 0 <= k < old(self).circuit.ops@.len() ==> wf_op(#[trigger] old(self).circuit.ops@[k]) && op_slots_in_range(old(self).circuit.ops@[k], old(self).witness@.len() as int)')
